@@ -5,7 +5,7 @@ in : {"cfg":{"timeout":n|null,"reissue":n|null,"soe":b,"dsize":n}, "clock0":q,
       "reqs":[{"dq":n,"present":"latest"|"absent"|["issued",k]|"reject"|["wire",W],"ops":null|[[dq,OP],…],"raised":b},…]}
      W  = "nt" | [F,F,S]   F = q | "bad"   S = DATA | "nodict"
      JV = null | bool | int | string | {"l":[JV…]} | {"d":[[k,JV]…]}      DATA = [[k,JV]…]
-     OP = ["get",k] ["getitem",k] ["contains",k] ["len"] ["keys"] ["items"] ["values"] ["iter"] ["set",k,v] ["del",k]
+     OP = ["get",k] ["get",k,d] ["getitem",k] ["contains",k] ["len"] ["keys"] ["items"] ["values"] ["iter"] ["set",k,v] ["del",k]
           ["update",DATA] ["pop",k] ["pop",k,d] ["popitem"] ["setdefault",k,v] ["clear"] ["flash",m,q,dup]
           ["pop_flash",q] ["peek_flash",q] ["new_csrf",tok] ["get_csrf",tok] ["invalidate"] ["changed"]
 out: {"model":[per request…], "spec":[per request…]|null}
@@ -67,7 +67,8 @@ def dataJson (d : Data) : Json := Json.arr (d.map fun (k, v) => Json.arr #[.str 
 
 def parseOp (j : Json) : Except String Op :=
   match j with
-  | .arr #[.str "get", .str k] => pure (.get k)
+  | .arr #[.str "get", .str k] => pure (.get k none)
+  | .arr #[.str "get", .str k, d] => do pure (.get k (some (← parseJV d)))
   | .arr #[.str "getitem", .str k] => pure (.getitem k)
   | .arr #[.str "contains", .str k] => pure (.contains k)
   | .arr #[.str "len"] => pure .len
